@@ -5,8 +5,9 @@ drivers (and available to later properties that extend `SProg`).
 Wire format
   Expr    : int | "x" | {"l": i} | {"+": [a, b]} | {"*": [a, b]}
   SProg   : a JSON list of statements (folded into `seq … skip`), each statement an object with "op":
-            bind{e} ret{e} param{n,shape,init} variable{c,n,shape,e} get{c,n} put{c,n,e} sow{c,n,e}
-            perturb{c,n,e} child{cls,name|null,body} call{slot,e}
+            bind{e} ret{e} param{n,shape,init} variable{c,n,shape,e} get{c,n} put{c,n,e[,rel,more]} sow{c,n,e}
+            perturb{c,n,e} child{cls,name|null,body} call{slot,e[,w]}; a param shape entry is a number or "W"
+            (`x.shape[-1:]`); put with "rel"/"more" is one dict-valued put_variable (more = [[rel,n,e],…])
   Val     : {"t": shape, "d": ints} | {"tup": [{"t":…,"d":…}, …]}
   Vars    : {"cols": [..], "vars": [[path, val], …]}
   LFilter : as in the C14 driver (true | false | "name" | [names] | {"deny": f})
@@ -49,6 +50,16 @@ partial def exprOfJson : Json → Except String Expr
     | _, _, _ => bad
   | _ => bad
 
+def dimOfJson : Json → Except String Dim
+  | .str "W" => .ok .argLast
+  | j => do .ok (.lit (← asNat j))
+
+def optNat (j : Except String Json) : Except String (Option Nat) :=
+  match j with
+  | .ok .null => .ok none
+  | .ok v => do .ok (some (← asNat v))
+  | .error _ => .ok none
+
 def optStr (j : Json) : Except String (Option String) :=
   match j with
   | .null => .ok none
@@ -62,18 +73,29 @@ mutual
     | "bind" => do .ok (.bind (← exprOfJson (← field j "e")))
     | "ret" => do .ok (.ret (← exprOfJson (← field j "e")))
     | "param" => do
-        .ok (.param (← asStr (← field j "n")) (← asList asNat (← field j "shape")) (← asInt (← field j "init")))
+        .ok (.param (← asStr (← field j "n")) (← asList dimOfJson (← field j "shape")) (← asInt (← field j "init")))
     | "variable" => do
         .ok (.var (← asStr (← field j "c")) (← asStr (← field j "n")) (← asList asNat (← field j "shape"))
               (← exprOfJson (← field j "e")))
     | "get" => do .ok (.get (← asStr (← field j "c")) (← asStr (← field j "n")))
-    | "put" => do .ok (.put (← asStr (← field j "c")) (← asStr (← field j "n")) (← exprOfJson (← field j "e")))
+    | "put" => do
+        -- optional "rel" (path below this scope) and "more" (further leaves of the same dict-valued write)
+        let c ← asStr (← field j "c")
+        let rel ← match j.getObjVal? "rel" with
+          | .ok r => asList asStr r
+          | .error _ => pure []
+        let first := SProg.put c rel (← asStr (← field j "n")) (← exprOfJson (← field j "e"))
+        let more ← match j.getObjVal? "more" with
+          | .ok m => asList (fun t => do
+              pure (SProg.put c (← asList asStr (← argAt t 0)) (← asStr (← argAt t 1)) (← exprOfJson (← argAt t 2)))) m
+          | .error _ => pure []
+        .ok (more.foldl (fun acc st => SProg.seq acc st) first)
     | "sow" => do .ok (.sow (← asStr (← field j "c")) (← asStr (← field j "n")) (← exprOfJson (← field j "e")))
     | "perturb" => do
         .ok (.perturb (← asStr (← field j "c")) (← asStr (← field j "n")) (← exprOfJson (← field j "e")))
     | "child" => do
         .ok (.child (← asStr (← field j "cls")) (← optStr (← field j "name")) (← progOfJson (← field j "body")))
-    | "call" => do .ok (.call (← asNat (← field j "slot")) (← exprOfJson (← field j "e")))
+    | "call" => do .ok (.call (← asNat (← field j "slot")) (← exprOfJson (← field j "e")) (← optNat (j.getObjVal? "w")))
     | _ => bad
 
   partial def progOfJson (j : Json) : Except String SProg := do
@@ -173,7 +195,9 @@ def handle : Handler := fun fn args =>
       let V ← varsOfJson (← argAt args 3)
       let rngs ← asList asStr (← argAt args 4)
       let x ← asInt (← argAt args 5)
-      .ok (outcomeToJson (ModuleTree.apply cfg driverFuel p m V rngs x))
+      -- optional 7th argument: width of a top-level array argument `full((w,), x)`
+      let xw ← optNat (argAt args 6)
+      .ok (outcomeToJson (ModuleTree.apply cfg driverFuel (bindArg xw p) m V rngs x))
   | "abstract" => do
       let V ← varsOfJson (← argAt args 0)
       .ok (varsToJson (Vars.abstract V))
